@@ -272,6 +272,14 @@ func auditC13(sc *Scenario, t *Truth, c *Call, a *Audit, cur int, others []strin
 				fmt.Sprintf("%s the configuration of %s says name=%q replica_name=%q replica_num=%d replicas=%d; expected s/%s/%d/%d", where, nm, inf.Name, inf.ReplicaName, inf.ReplicaNum, inf.Replicas, nm, k, cur), c.RetSeq)
 			return want, true
 		}
+		if ps := sc.Project.Proc("s"); ps != nil && ps.Readiness != nil && (inf.Readiness == nil || !hasStr(strings.Fields(inf.Readiness.Exec), tok)) {
+			got := "<none>"
+			if inf.Readiness != nil {
+				got = inf.Readiness.Exec
+			}
+			add("replica-config-not-rendered", "probe", fmt.Sprintf("%s the readiness probe of %s runs %q: not rendered for replica number %d", where, nm, got, k), c.RetSeq)
+			return want, true
+		}
 		if !hasStr(strings.Fields(inf.Command+" "+strings.Join(inf.Args, " ")), tok) {
 			add("replica-config-not-rendered", "", fmt.Sprintf("%s the command of %s is %q %q: not rendered for replica number %d", where, nm, inf.Command, inf.Args, k), c.RetSeq)
 			return want, true
@@ -445,6 +453,11 @@ func genC13(r *R, sc *Scenario, tier string) {
 	s := &ProcSpec{Name: "s", Token: "s.{{.PC_REPLICA_NUM}}", Replicas: r0}
 	if r.P(300) {
 		s.Description = "replica {{.PC_REPLICA_NUM}} of s"
+	}
+	if r.P(250) {
+		// a probe of its own per replica
+		s.Readiness = &ProbeSpec{Token: "s.{{.PC_REPLICA_NUM}}", Period: iptr(Pick(r, 1, 2)), FailureThreshold: iptr(50)}
+		sc.Scripts["simprobe:s.*"] = &TokenScript{Launches: []simos.Script{{LifeMs: 10, Exit: 0}}}
 	}
 	sc.Mode = Pick(r, "forever", "forever", "forever", "finite", "churn")
 	life, exit := -1, 0
